@@ -1548,42 +1548,7 @@ func checkNativeTTLHonoured(p *Prog, r *Roles, res *Result, rule string) {
 				res.und(rule, construct, p.pos(f.Pos()), "ttl parameter not found")
 				continue
 			}
-			used := false
-			for _, g := range withAnon(f) {
-				for _, c := range callsIn(g) {
-					sc := c.Common().StaticCallee()
-					if sc == nil || sc.Pkg == nil || strings.HasPrefix(sc.Pkg.Pkg.Path(), modPath) || !strings.Contains(sc.Pkg.Pkg.Path(), ".") || strings.Contains(sc.Pkg.Pkg.Path(), "klog") {
-						continue
-					}
-					for _, a := range c.Common().Args {
-						if derivesFrom(p, a, func(v ssa.Value) bool { return p.resolveDeep(v) == ssa.Value(ttl) }) {
-							used = true
-						}
-					}
-				}
-			}
-			// .. or is recorded with the staged operation and read again when the batch is applied
-			how := "the ttl reaches a call into the engine library"
-			if !used {
-				for _, g := range withAnon(f) {
-					for _, b := range g.Blocks {
-						for _, ins := range b.Instrs {
-							st, ok := ins.(*ssa.Store)
-							if !ok {
-								continue
-							}
-							fa, ok := st.Addr.(*ssa.FieldAddr)
-							if !ok || len(p.fields().loads[fieldOf(fa)]) == 0 {
-								continue
-							}
-							if derivesFrom(p, st.Val, func(v ssa.Value) bool { return p.resolveDeep(v) == ssa.Value(ttl) }) {
-								used = true
-								how = "the ttl is recorded in the staged operation (field " + fieldOf(fa).Name() + "), which is read when the batch is applied"
-							}
-						}
-					}
-				}
-			}
+			used, how := ttlUsed(p, f, ttl, 0)
 			if used {
 				res.ok(rule, construct, p.pos(f.Pos()), how)
 			} else {
@@ -1594,4 +1559,57 @@ func checkNativeTTLHonoured(p *Prog, r *Roles, res *Result, rule string) {
 	if n == 0 {
 		res.und(rule, "native-TTL adapters", "-", "no adapter with SupportTTL() == true found")
 	}
+}
+
+// ttlUsed: the value of parameter prm of f (or of f's function literals) reaches a call into a library outside the
+// repository, or a struct field that is read somewhere, directly or through helpers of the repository that are handed
+// it as an argument.
+func ttlUsed(p *Prog, f *ssa.Function, prm *ssa.Parameter, depth int) (bool, string) {
+	if depth > 3 {
+		return false, ""
+	}
+	fromPrm := func(v ssa.Value) bool {
+		return derivesFrom(p, v, func(x ssa.Value) bool { return p.resolveDeep(x) == ssa.Value(prm) })
+	}
+	for _, g := range withAnon(f) {
+		for _, c := range callsIn(g) {
+			sc := c.Common().StaticCallee()
+			if sc == nil || sc.Pkg == nil || strings.Contains(sc.Pkg.Pkg.Path(), "klog") {
+				continue
+			}
+			inRepo := strings.HasPrefix(sc.Pkg.Pkg.Path(), modPath)
+			if !inRepo && !strings.Contains(sc.Pkg.Pkg.Path(), ".") {
+				continue // standard library (fmt, time ..)
+			}
+			for i, a := range c.Common().Args {
+				if !fromPrm(a) {
+					continue
+				}
+				if !inRepo {
+					return true, "the ttl reaches a call into the engine library (" + sc.Name() + ")"
+				}
+				if sc.Blocks != nil && i < len(sc.Params) {
+					if ok, how := ttlUsed(p, sc, sc.Params[i], depth+1); ok {
+						return true, how + " through " + sc.Name()
+					}
+				}
+			}
+		}
+		for _, b := range g.Blocks {
+			for _, ins := range b.Instrs {
+				st, ok := ins.(*ssa.Store)
+				if !ok {
+					continue
+				}
+				fa, ok := st.Addr.(*ssa.FieldAddr)
+				if !ok || len(p.fields().loads[fieldOf(fa)]) == 0 {
+					continue
+				}
+				if fromPrm(st.Val) {
+					return true, "the ttl is recorded in the staged operation (field " + fieldOf(fa).Name() + "), which is read when the batch is applied"
+				}
+			}
+		}
+	}
+	return false, ""
 }
